@@ -1,0 +1,23 @@
+//! Read-only accessors for the private precomputed attack tables.
+//!
+//! Only compiled with the cargo feature `inkayaku_verif` (off by default). Every `*_attacks`
+//! function goes through the same `get_attacks` / `get_unchecked` path the move generator uses.
+
+use crate::board::constants::SquareShiftBits;
+use crate::board::precalculated::{BISHOP_MAGICS, ROOK_MAGICS, UnsafeMagicsExt};
+use crate::board::precalculated::{BLACK_PAWN_NONMAGICS, KING_NONMAGICS, KNIGHT_NONMAGICS, UnsafeNonmagicsExt, WHITE_PAWN_NONMAGICS};
+
+pub fn rook_attacks(square: SquareShiftBits, occupancy: u64) -> u64 { ROOK_MAGICS.get_attacks(square, occupancy) }
+pub fn rook_mask(square: SquareShiftBits) -> u64 { ROOK_MAGICS[square as usize].verif_mask() }
+pub fn rook_table_len(square: SquareShiftBits) -> usize { ROOK_MAGICS[square as usize].verif_table_len() }
+pub fn rook_index(square: SquareShiftBits, occupancy: u64) -> usize { ROOK_MAGICS[square as usize].verif_index(occupancy) }
+
+pub fn bishop_attacks(square: SquareShiftBits, occupancy: u64) -> u64 { BISHOP_MAGICS.get_attacks(square, occupancy) }
+pub fn bishop_mask(square: SquareShiftBits) -> u64 { BISHOP_MAGICS[square as usize].verif_mask() }
+pub fn bishop_table_len(square: SquareShiftBits) -> usize { BISHOP_MAGICS[square as usize].verif_table_len() }
+pub fn bishop_index(square: SquareShiftBits, occupancy: u64) -> usize { BISHOP_MAGICS[square as usize].verif_index(occupancy) }
+
+pub fn king_attacks(square: SquareShiftBits) -> u64 { assert!(square < 64); unsafe { KING_NONMAGICS.get_attacks(square) } }
+pub fn knight_attacks(square: SquareShiftBits) -> u64 { assert!(square < 64); unsafe { KNIGHT_NONMAGICS.get_attacks(square) } }
+pub fn white_pawn_attacks(square: SquareShiftBits) -> u64 { assert!(square < 64); unsafe { WHITE_PAWN_NONMAGICS.get_attacks(square) } }
+pub fn black_pawn_attacks(square: SquareShiftBits) -> u64 { assert!(square < 64); unsafe { BLACK_PAWN_NONMAGICS.get_attacks(square) } }
